@@ -291,6 +291,9 @@ theorem guard_applied_everywhere :
     Gen.StoreGuards.sinks.all (fun s => s.2.2.head? == some "guard:err := p.Check(); err != nil => err") = true ∧
     Gen.StoreGuards.executeHelperSinks = ["s.raft.Apply"] ∧
     Gen.StoreGuards.pragmaCheckCoversEveryStatement = true ∧
+    -- `p` is the Request of the function's own request parameter, defined once
+    Gen.StoreGuards.pragmaCheckSubject.map (fun t => (t.1, t.2.2 == "p := (*PragmaCheckRequest)(" ++ t.2.1 ++ ".Request)")) =
+      [("Execute", true), ("Query", true), ("Request", true)] ∧
     -- Check is exactly: nil receiver passes; every statement, unconditionally, through the guard
     Gen.StoreGuards.pragmaCheckBody =
       ["if p == nil { return nil }", "for _, stmt := range p.Statements", "return nil"] ∧
